@@ -28,6 +28,7 @@ type FaultStore struct {
 	logs [vsched.MaxThreads + 1][]StoreOp
 	// Journal records every mutation with the state it replaced (crash enumeration: Rollback).
 	Journal []JournalEntry
+	Closed  bool // Close was called
 }
 
 type JournalEntry struct {
@@ -189,7 +190,13 @@ func (f *FaultStore) Delete(key []byte) error {
 	return nil
 }
 
-func (f *FaultStore) Close() error { return nil }
+// Close marks the store closed (a real store refuses everything afterwards).
+func (f *FaultStore) Close() error {
+	f.mu.Lock()
+	f.Closed = true
+	f.mu.Unlock()
+	return nil
+}
 
 // Keys lists the keys on the disk, sorted.
 func (f *FaultStore) Keys() []string {
